@@ -16,7 +16,7 @@ func init() {
 	register("C04", "Decides structural necessary conditions of 'a task or detector belongs to at most one environment': "+
 		"(R04a) task ownership is written only by acquire, release and the task constructor; (R04b) release refuses tasks locked by another environment, the acquire rollback only unlocks tasks of its own deployment; "+
 		"(R04c) every path to a Mesos KILL passes a not-owned filter (roster filters of Cleanup/KillTasks, reconciliation guard), EmergencyKillTasks being the one allow-listed exception; "+
-		"(R04d) reuse claims only claimable (unowned, idle) tasks; (R04e) environment registration is preceded by the detector exclusion check and is atomic with the snapshot it checks against. "+
+		"(R04d) reuse claims only claimable (unowned, idle) tasks; (R04e) environment registration is preceded by the detector exclusion check and is atomic with the snapshot it checks against; (R04g) the roster shrinks only by members of the kill list handed to doKillTasks. "+
 		"Does not decide invariance over interleavings.", runC04)
 }
 
@@ -27,6 +27,7 @@ func runC04(c *an.Ctx) {
 	r04cAtomic(c)
 	r04d(c)
 	r04e(c)
+	r04g(c)
 }
 
 func r04a(c *an.Ctx) {
